@@ -23,8 +23,8 @@ import (
 func (e *Engine) errIs(st *State, a, b *smt.Term) *smt.Term {
 	c := e.C
 	r := c.App("errIs", smt.Bool, a, b)
-	if !st.Known[r] {
-		st.Known[r] = true
+	if !st.Marked[r] {
+		st.Marked[r] = true
 		z := e.i64(0)
 		st.Assume(c.Implies(c.And(c.Eq(a, b), c.Not(c.Eq(a, z))), r))
 		st.Assume(c.Implies(c.Eq(a, z), c.Not(r)))
@@ -35,8 +35,8 @@ func (e *Engine) errIs(st *State, a, b *smt.Term) *smt.Term {
 func (e *Engine) errIsCE(st *State, a *smt.Term) *smt.Term {
 	c := e.C
 	r := c.App("errIsCE", smt.Bool, a)
-	if !st.Known[r] {
-		st.Known[r] = true
+	if !st.Marked[r] {
+		st.Marked[r] = true
 		st.Assume(c.Implies(c.Eq(a, e.i64(0)), c.Not(r)))
 	}
 	return r
